@@ -134,11 +134,20 @@ Proof.
     (destruct (_ || _); intros E; inversion E; discriminate).
 Qed.
 
-Lemma gnal_err x e : get_new_array_length x = Err e -> e <> SegV.
+Lemma gnal_err isz x e : get_new_array_length isz x = Err e -> e <> SegV.
 Proof.
   unfold get_new_array_length. destruct x; try (intros E; inversion E; discriminate).
   destruct (z <? 0); [intros E; inversion E; discriminate|].
   destruct (SSIZE_MAX <? z); intros E; inversion E; discriminate.
+Qed.
+
+Lemma gnal_nonneg isz x cap b : get_new_array_length isz x = Ok (cap, b) -> 0 <= cap.
+Proof.
+  unfold get_new_array_length. destruct x; try discriminate; intros E.
+  - destruct (Z.ltb_spec z 0); [discriminate|]. destruct (SSIZE_MAX <? z); [discriminate|]. inversion E. lia.
+  - inversion E. pose proof (mlen_nonneg b0). lia.
+  - inversion E. pose proof (mlen_nonneg (str_units isz cps)). lia.
+  - inversion E. apply mlen_nonneg.
 Qed.
 
 (* items of an array, one after the other *)
@@ -178,7 +187,7 @@ Proof. rewrite mlen_app. reflexivity. Qed.
 Lemma fill_array_safe rec item len cap off v m :
   0 < lsize item -> 0 <= off -> 0 <= cap ->
   (0 <= len -> cap = len) ->
-  (len < 0 -> exists b, get_new_array_length v = Ok (cap, b)) ->
+  (len < 0 -> exists b, get_new_array_length (lsize item) v = Ok (cap, b)) ->
   off + lsize item * cap <= mlen m ->
   (forall x off' m', 0 <= off' -> off' + lsize item <= mlen m' -> safe (rec off' x m') m') ->
   safe (fill_array rec item len off v m) m.
@@ -199,13 +208,14 @@ Proof.
       * destruct (Hflex Hl) as (bb & E). cbn in E. inversion E. lia.
   - (* str *)
     destruct (wide_char_item item) eqn:H1; [|apply safe_err; discriminate].
-    destruct ((0 <=? len) && (len <? mlen c)) eqn:Hlong; [apply safe_err; discriminate|].
-    apply write_safe; [lia|]. rewrite flat_map_le_len by lia. pose proof (mlen_nonneg c).
-    destruct (Z.eqb_spec (mlen c) len) as [E|NE].
+    cbv zeta. set (u := str_units (lsize item) c) in *.
+    destruct ((0 <=? len) && (len <? mlen u)) eqn:Hlong; [apply safe_err; discriminate|].
+    apply write_safe; [lia|]. rewrite flat_map_le_len by lia. pose proof (mlen_nonneg u).
+    destruct (Z.eqb_spec (mlen u) len) as [E|NE].
     + destruct (Z.leb_spec 0 len); [rewrite <- (Hfix ltac:(lia)) in E; nia|lia].
     + rewrite mlen_snoc. destruct (Z.leb_spec 0 len) as [Hl|Hl].
-      * rewrite (Hfix Hl) in *. destruct (Z.ltb_spec len (mlen c)); [discriminate|]. nia.
-      * destruct (Hflex Hl) as (bb & E). cbn in E. inversion E. nia.
+      * rewrite (Hfix Hl) in *. destruct (Z.ltb_spec len (mlen u)); [discriminate|]. nia.
+      * destruct (Hflex Hl) as (bb & E). unfold get_new_array_length in E. fold u in E. inversion E. nia.
   - (* list / tuple *)
     destruct ((0 <=? len) && (len <? mlen l)) eqn:Hlong; [apply safe_err; discriminate|].
     apply fill_items_safe; try lia; [|exact Hrec]. pose proof (mlen_nonneg l).
@@ -302,7 +312,8 @@ Qed.
 (* one field, given safety of the conversions at smaller fuel *)
 Lemma fill_field_safe f (IHf : forall f', (f' <= f)%nat -> P f') size var off m fld x :
   field_wf size var fld -> no_var_items (lf_type fld) = true -> 0 <= off ->
-  (is_flex (lf_type fld) = true -> forall cap b, get_new_array_length x = Ok (cap, b) -> 0 <= cap ->
+  (is_flex (lf_type fld) = true -> forall cap b,
+     get_new_array_length (lsize (item_of (lf_type fld))) x = Ok (cap, b) -> 0 <= cap ->
      off + lf_off fld + lsize (item_of (lf_type fld)) * cap <= mlen m ->
      safe (fill_field (fill f) off fld x m) m) /\
   (is_flex (lf_type fld) = false -> forall n, need f (lf_type fld) x = Ok n ->
@@ -455,7 +466,7 @@ Proof.
         assert (Hm : forall fld x o o', size_field (size_struct f) fld x o = Ok o' -> o <= o').
         { intros fld x o o'. unfold size_field.
           destruct (is_flex (lf_type fld)).
-          - destruct (get_new_array_length x); cbn [bind]; [|discriminate].
+          - destruct (get_new_array_length _ x); cbn [bind]; [|discriminate].
             intros E. apply add_varsize_ok in E. lia.
           - destruct (agg_var (lf_type fld) && negb (is_cdata x)).
             + destruct (size_struct f _ x _); cbn [bind]; [|discriminate].
@@ -482,13 +493,10 @@ Proof.
            destruct (fill_field_safe f IHf size true off m' fld x (Hfs fld Hin) (Hnv fld Hin) Ho) as (S1 & S2).
            pose proof (Hfs fld Hin) as (_ & Hoff & Hpl & _ & _).
            unfold size_field in E. destruct (is_flex (lf_type fld)) eqn:Efl.
-           ++ destruct (get_new_array_length x) as [[cap b]|] eqn:Eg; cbn [bind fst] in E; [|discriminate].
+           ++ destruct (get_new_array_length _ x) as [[cap b]|] eqn:Eg; cbn [bind fst] in E; [|discriminate].
               apply add_varsize_ok in E. split; [lia|]. intros Hb' Hm'.
               apply (S1 eq_refl cap b eq_refl); [|lia].
-              unfold get_new_array_length in Eg. destruct x; try discriminate;
-                try (inversion Eg; apply mlen_nonneg || (pose proof (mlen_nonneg b0); lia) || (pose proof (mlen_nonneg cps); lia)).
-              destruct (Z.ltb_spec z 0); [discriminate|]. destruct (SSIZE_MAX <? z); [discriminate|].
-              inversion Eg. lia.
+              eapply gnal_nonneg; exact Eg.
            ++ destruct (agg_var (lf_type fld) && negb (is_cdata x)) eqn:Eav.
               ** destruct (size_struct f (agg_fields (lf_type fld)) x (lsize (lf_type fld))) as [sub|] eqn:Es;
                    cbn [bind] in E; [|discriminate].
@@ -518,13 +526,10 @@ Proof.
            destruct (fill_field_safe f IHf size true off m' fld x (Hfs fld Hin) (Hnv fld Hin) Ho) as (S1 & S2).
            pose proof (Hfs fld Hin) as (_ & Hoff & Hpl & _ & _).
            unfold size_field in E. destruct (is_flex (lf_type fld)) eqn:Efl.
-           ++ destruct (get_new_array_length x) as [[cap b]|] eqn:Eg; cbn [bind fst] in E; [|discriminate].
+           ++ destruct (get_new_array_length _ x) as [[cap b]|] eqn:Eg; cbn [bind fst] in E; [|discriminate].
               apply add_varsize_ok in E. split; [lia|]. intros Hb' Hm'.
               apply (S1 eq_refl cap b eq_refl); [|lia].
-              unfold get_new_array_length in Eg. destruct x; try discriminate;
-                try (inversion Eg; apply mlen_nonneg || (pose proof (mlen_nonneg b0); lia) || (pose proof (mlen_nonneg cps); lia)).
-              destruct (Z.ltb_spec z 0); [discriminate|]. destruct (SSIZE_MAX <? z); [discriminate|].
-              inversion Eg. lia.
+              eapply gnal_nonneg; exact Eg.
            ++ destruct (agg_var (lf_type fld) && negb (is_cdata x)) eqn:Eav.
               ** destruct (size_struct f (agg_fields (lf_type fld)) x (lsize (lf_type fld))) as [sub|] eqn:Es;
                    cbn [bind] in E; [|discriminate].
@@ -601,7 +606,7 @@ Proof. unfold add_varsize_length. destruct (SSIZE_MAX <? off + isz * len); discr
 Lemma size_field_mono rec fld x o o2 : size_field rec fld x o = Ok o2 -> o <= o2.
 Proof.
   unfold size_field. destruct (is_flex (lf_type fld)).
-  - destruct (get_new_array_length x); cbn [bind]; [|discriminate].
+  - destruct (get_new_array_length _ x); cbn [bind]; [|discriminate].
     intros E. apply add_varsize_ok in E. lia.
   - destruct (agg_var (lf_type fld) && negb (is_cdata x)).
     + destruct (rec _ x _); cbn [bind]; [|discriminate].
@@ -623,7 +628,7 @@ Proof.
   induction fuel as [|f IH]; intros fs v opt; cbn [size_struct]; [discriminate|].
   assert (HG : forall fld x o, size_field (size_struct f) fld x o <> Err SegV).
   { intros fld x o. unfold size_field. destruct (is_flex (lf_type fld)).
-    - pose proof (gnal_err x). destruct (get_new_array_length x) as [lb|e]; cbn [bind];
+    - pose proof (gnal_err (lsize (item_of (lf_type fld))) x). destruct (get_new_array_length _ x) as [lb|e]; cbn [bind];
         [apply add_varsize_noseg|]. intros E. inversion E. subst e. exact (H SegV eq_refl eq_refl).
     - destruct (agg_var (lf_type fld) && negb (is_cdata x)); [|discriminate].
       pose proof (IH (agg_fields (lf_type fld)) x (lsize (lf_type fld))).
@@ -631,15 +636,6 @@ Proof.
   destruct v; try discriminate; cbn [struct_from_object].
   - apply list_noseg. exact HG.
   - apply dict_noseg. exact HG.
-Qed.
-
-Lemma gnal_nonneg x cap b : get_new_array_length x = Ok (cap, b) -> 0 <= cap.
-Proof.
-  unfold get_new_array_length. destruct x; try discriminate; intros E.
-  - destruct (Z.ltb_spec z 0); [discriminate|]. destruct (SSIZE_MAX <? z); [discriminate|]. inversion E. lia.
-  - inversion E. pose proof (mlen_nonneg b0). lia.
-  - inversion E. pose proof (mlen_nonneg cps). lia.
-  - inversion E. apply mlen_nonneg.
 Qed.
 
 (* ffi.new("T *", init) never writes outside the block it allocated *)
@@ -690,12 +686,12 @@ Proof.
   pose proof Hnv as Hnv'. cbn [no_var_items] in Hnv'. rewrite andb_true_iff, negb_true_iff in Hnv'.
   destruct Hnv' as (Hhv & Hni).
   destruct (Z.ltb_spec len 0) as [Hneg|Hpos].
-  - pose proof (gnal_err init) as Hge.
-    destruct (get_new_array_length init) as [[cap b]|e] eqn:Eg; cbn [bind fst];
+  - pose proof (gnal_err (lsize item) init) as Hge.
+    destruct (get_new_array_length (lsize item) init) as [[cap b]|e] eqn:Eg; cbn [bind fst];
       [|intros E; inversion E; subst e; exact (Hge SegV eq_refl eq_refl)].
     destruct (SSIZE_MAX <? cap * lsize item); [discriminate|]. cbn [bind].
     destruct (MAX_ALLOC <? cap * lsize item); [discriminate|].
-    pose proof (gnal_nonneg _ _ _ Eg) as Hcap.
+    pose proof (gnal_nonneg _ _ _ _ Eg) as Hcap.
     assert (Hsafe : safe (fill fuel (LArr item len) 0 init (zeros (cap * lsize item))) (zeros (cap * lsize item))).
     { destruct fuel as [|f]; [apply safe_err; discriminate|]. cbn [fill].
       apply (fill_array_safe _ item len cap); try lia; eauto.
